@@ -2,7 +2,7 @@ SPECIFICATION Spec
 CONSTANTS
   MaxOverloads = 3
   MaxParams = 1
-  ParamCats <- Cats1
+  ParamCats <- Cats4
   IntVals <- EdgeIntVals
   IntVals2 <- FewIntVals
   ArgKinds <- AllArgKinds
